@@ -79,13 +79,18 @@ CLAIMED = {
             "unicode normalisation, case-insensitive file systems, git trees are outside.",
             "file system, inventory lookups, ignore answers and nested-tree detection are stubs over the node table; "
             "inventory entries are the real compiled ones built from concrete names"),
-    "C12": ("'remove' never deletes uncommitted work without --force (kernel)",
+    "C12": ("'remove' never deletes uncommitted work without --force; revert's backup-or-keep decision (kernels)",
             "The real InventoryWorkingTree.remove over a table of files with SYMBOLIC names, each unchanged / modified / "
             "newly added / unknown / versioned-but-missing, with keep or delete and with / without force: keeping touches "
             "nothing on disk; deleting without force moves every unknown, newly added or modified file to a backup name "
             "that is free in the TREE (an earlier backup NAME.~1~ is never overwritten, whatever the process's working "
             "directory) instead of deleting it and deletes only unchanged versioned files; force deletes; versioned files "
-            "(and only they) are unversioned. Directories, revert (_alter_files) and merge helpers are outside.",
+            "(and only they) are unversioned. The real _alter_files (the body of revert) over reported changes whose "
+            "working / target kinds, versioned flags, presence in the basis and content hashes of working tree, basis, target "
+            "and merge record are SYMBOLIC: a file whose content differs from the basis and was not written by a merge is "
+            "never deleted unless backups were switched off - it is moved to the first free backup name and the reverted "
+            "content gets a fresh path, or stays in place when the target has no such file. Directories, what the transform "
+            "does with the recorded operations (C13), files the basis lacks but the target has, and merge helpers are outside.",
             "tree queries and osutils file operations are stubs over the table; is_inside_any is a validated model; the "
             "compiled InventoryDelta class is replaced by a list"),
     "C13": ("rename journal, rollback and the apply phases (single failure)",
@@ -154,13 +159,16 @@ CLAIMED = {
             "Branch dotted-number lookup over an arbitrary one-to-one numbering. Merge-sorted numbering (compiled) and the "
             "revid:/tag:/ancestor:/mainline:/date: specifiers are outside.",
             "branch is a stub with a symbolic number of mainline revisions"),
-    "C23": ("bound-branch commit kernel (first sentence of C23)",
+    "C23": ("bound-branch commit kernel (first sentence of C23) and the master lookup it relies on",
             "The real Commit._check_bound_branch, _check_out_of_date_tree and _update_branches, called in commit()'s order over "
             "stub branches with SYMBOLIC revision ids and revision numbers: a bound non-local commit is refused "
             "(BoundBranchOutOfDate / OutOfDateTree / CommitToDoubleBoundBranch) without changing either branch when the "
             "master moved or the tree is stale, otherwise the master is write-locked and updated first, the local branch "
-            "second, to the same tip and old revno + 1; a --local commit never touches the master. Update and pull in a "
-            "checkout, the commit builder and the tree walk are outside.",
+            "second, to the same tip and old revno + 1; a --local commit never touches the master. The real get_master_branch / "
+            "set_bound_location / get_bound_location of BzrBranch and BzrBranch8 on one branch object over a SYMBOLIC sequence "
+            "of lookups, binds to two (possibly equal, symbolic) locations, unbinds and lock cycles: the master a commit "
+            "would use is always the branch at the location bound NOW (the per-lock cache never answers stale). Update and "
+            "pull in a checkout, the commit builder and the tree walk are outside.",
             "branches, tree, builder, config are recording stubs; the three methods are composed by the harness in the order "
             "commit() uses"),
     "C24": ("tag reconciliation kernel",
@@ -261,8 +269,10 @@ CLAIMED = {
             "renamed / renamed-and-modified files and removed / renamed directories holding one file (unchanged or "
             "modified) whose names are SYMBOLIC (the solver decides swaps, chains and reuse of "
             "vacated names); afterwards the remote directory holds exactly the new tree's entries with the new contents "
-            "and the uploaded revision id is recorded. Larger directories, symlinks, kind changes, executable bits, ignore "
-            "rules and full uploads are outside.",
+            "and the uploaded revision id is recorded; each top-level name is upload-ignored or not (SYMBOLIC, inherited by "
+            "the paths below it), ignored paths were never uploaded and are left out of the comparison, everything else must "
+            "match exactly (a file renamed to an ignored name must not stay behind under its old name). Larger directories, "
+            "symlinks, kind changes, executable bits, entries renamed from an ignored name and full uploads are outside.",
             "remote transport = flat map refusing renames onto occupied names; the tree delta is computed by the harness"),
     "C45": ("eol filter stack",
             "All 7 eol settings on content <= 6/9 arbitrary bytes, every chunk split: NUL content untouched, canonical text "
@@ -296,8 +306,10 @@ CLAIMED = {
             "reference quoter as stated in the evidence"),
     "C51": ("rebase plan generation (simple and transpose plans) and persistence",
             "(1) generate_simple_plan over histories whose SHAPE is symbolic (revisions and parents are symbolic ids; "
-            "chains, diamonds inside the rebased set, merges from outside): exactly the revisions of the set are "
-            "rewritten, every new parent is the new base, the new id of a rewritten revision or a revision outside the "
+            "chains, diamonds inside the rebased set, merges from outside), with and without skip_full_merged: exactly the "
+            "revisions of the set are rewritten (on request a merge one of whose parents is already in the new base's history "
+            "may be left out, nothing else), a rewritten merge keeps its merged-in parent (or that parent's rewrite) unless the "
+            "new base already contains it, every new parent is the new base, the new id of a rewritten revision or a revision outside the "
             "set - never the old id of a rewritten revision. (2) marshall_rebase_plan / unmarshall_rebase_plan round trip "
             "with symbolic revno, revision ids and parents. (3) generate_transpose_plan over the same symbolic histories "
             "with 1..2 replaced revisions listed in either order: exactly the descendants of replaced revisions are "
